@@ -37,7 +37,7 @@ import (
 // c12Mode is the merge the Lean model is asked to run for generated cases ("current" = the code as it is in /repo with
 // finding F4; "fixed" = hooks/C12-fix.patch applied).  Flip with `python3 lib/c12_flip.py fixed` after the fix is
 // committed to /repo.  VERIF_C12_MODE overrides it (used for scratch-worktree experiments only).
-var c12Mode = "current"
+var c12Mode = "fixed"
 
 type c12Suite struct{}
 
